@@ -234,6 +234,7 @@ type Unit struct {
 	sortSites   []*SortSite
 	qid         int
 	globalEpoch int
+	closures    []*regClosure
 	Fn          *ssa.Function
 	OutOfSubset string
 	Returns     int
@@ -333,4 +334,38 @@ func mentionsPtr(t types.Type) bool {
 		}
 	}
 	return false
+}
+
+// Function values that reach memory are named by constants; the registry lets a later call
+// through a loaded function value dispatch over the closures it can be.
+type regClosure struct {
+	c    *Closure
+	name Term
+	key  string
+}
+
+func (u *Unit) closureConst(c *Closure, x *Exec) Term {
+	key := c.Fn.String()
+	for _, b := range c.Bindings {
+		switch bv := b.(type) {
+		case Term:
+			key += "|" + bv.S
+		case *Loc:
+			key += "|" + bv.String()
+		default:
+			key += fmt.Sprintf("|%p", b)
+		}
+	}
+	for _, r := range u.closures {
+		if r.key == key {
+			return r.name
+		}
+	}
+	name := u.W.Const(fmt.Sprintf("closure!%d.%s", len(u.closures), c.Fn.Name()), SFn)
+	for _, r := range u.closures {
+		u.AssumeRaw(Not(Eq(name, r.name)))
+	}
+	u.AssumeRaw(Not(Eq(name, u.W.Const("fn.nil", SFn))))
+	u.closures = append(u.closures, &regClosure{c: c, name: name, key: key})
+	return name
 }
